@@ -39,7 +39,7 @@ class Group:
                  named=None, canaries=1, functions=(), stubs=(), assumes=(), replay=None,
                  extra_cbmc=(), extra_instrument=(), nondet_static=False, runner=None,
                  also=(), text='', ndebug=False, mem_gb=12, object_bits=None,
-                 no_standard_checks=False, includes=()):
+                 no_standard_checks=False, includes=(), annotate=None):
         self.id = id; self.prop = prop; self.harness = harness; self.entry = entry
         self.defines = list(defines); self.level = level; self.bound = bound
         self.backend = backend; self.unwind = unwind; self.unwindset = unwindset
@@ -51,6 +51,7 @@ class Group:
         self.runner = runner; self.also = list(also); self.text = text; self.ndebug = ndebug
         self.mem_gb = mem_gb; self.object_bits = object_bits
         self.no_standard_checks = no_standard_checks; self.includes = list(includes)
+        self.annotate = annotate or {}
 
 
 class Result:
@@ -133,7 +134,21 @@ def run_cbmc_group(g, keep=False):
     os.makedirs(wd, exist_ok=True)
     gb0 = os.path.join(wd, 'a.gb')
     harness = os.path.join(VERIF, 'harness', g.harness)
-    inc = ['-I' + os.path.join(VERIF, 'harness'), '-I' + os.path.join(VERIF, 'contracts'),
+    inc = []
+    if g.annotate:
+        import annotate as ann
+        for rel, wanted in g.annotate.items():
+            try:
+                txt = ann.annotate(open(os.path.join(REPO, rel)).read(), wanted)
+            except (ann.AnnotateError, OSError) as e:
+                res.status = 'error'; res.reason = 'extraction break (loop annotation of %s): %s' % (rel, e)
+                res.seconds = time.time() - t0
+                return res
+            dst = os.path.join(wd, 'annot', rel)
+            os.makedirs(os.path.dirname(dst), exist_ok=True)
+            open(dst, 'w').write(txt)
+        inc.append('-I' + os.path.join(wd, 'annot'))
+    inc += ['-I' + os.path.join(VERIF, 'harness'), '-I' + os.path.join(VERIF, 'contracts'),
            '-I' + REPO, '-I' + os.path.join(REPO, 'include'), '-I' + os.path.join(REPO, 'src')]
     if any('random' in x for x in [g.harness] + g.defines + g.includes) or 'codegen' in g.includes:
         inc.append('-I' + codegen_dir())
@@ -191,11 +206,12 @@ def run_cbmc_group(g, keep=False):
         cmd += ['--unwinding-assertions']
     if g.object_bits:
         cmd += ['--object-bits', str(g.object_bits)]
-    if g.backend == 'z3':
+    backend = os.environ.get('CV_BACKEND', g.backend)
+    if backend == 'z3':
         cmd += ['--z3']
-    elif g.backend == 'cvc5':
+    elif backend == 'cvc5':
         cmd += ['--cvc5']
-    elif g.backend == 'kissat':
+    elif backend == 'kissat':
         cmd += ['--external-sat-solver', 'kissat']
     cmd += g.extra_cbmc
     res.cmds.append(' '.join(cmd))
@@ -234,7 +250,7 @@ def run_cbmc_group(g, keep=False):
     for r in results:
         sl = r.get('sourceLocation', {})
         ob = dict(name=r['property'], desc=r['description'], status=r['status'],
-                  file=sl.get('file', ''), line=sl.get('line', ''), func=sl.get('function', ''))
+                  file=sl.get('file', '').replace(os.path.join(wd, 'annot'), REPO), line=sl.get('line', ''), func=sl.get('function', ''))
         ob['kind'] = classify(ob['desc'], ob['name'], ob['file'])
         res.obligations.append(ob)
         if ob['kind'] == 'canary':
